@@ -424,3 +424,60 @@ fn c16_pairs_push_panics() {
 fn c16_whole_push_panics() {
     for_each_state::<Wholes>(h_push_panics::<Wholes>)
 }
+
+/// The contract the Verus unit `sorted_deque` ASSUMES for the private `cleanup_front` (its body iterates with
+/// `.iter().enumerate()`, outside Verus's dialect): from any inner-deque-valid state it drops exactly the leading
+/// run of erased items and touches nothing else.  No other precondition: erased flags are arbitrary (all erased,
+/// erased items behind live ones, ...).  BOUNDED: at most NCF = @@NCF@@ physical items, consumed prefix 0 or 1.
+const NCF: usize = @@NCF@@;
+
+fn cleanup_front_contract<K: Kind>()
+where
+    (): SortedDequeMarker<K::Item, Key = K::Key>,
+{
+    let vals: [Option<u8>; NCF + 1] = kani::any();
+    let mut len = 0;
+    while len <= NCF {
+        let mut consumed = 0;
+        while consumed <= 1 && consumed <= (len + consumed) / 2 {
+            // len live-or-erased items after `consumed` consumed ones
+            let mut v: Vec<K::Item> = Vec::new();
+            let mut i = 0;
+            while i < len + consumed {
+                v.push(K::item(i as u8, vals[i]));
+                i += 1;
+            }
+            if consumed < len + consumed || consumed == 0 {
+                let inner: SlidingDeque<Vec<K::Item>> = v.into();
+                let mut d: SD<K> = SortedDeque { items: with_prefix(inner, consumed), marker: () };
+                // reference: number of leading erased items
+                let mut k = 0;
+                while k < len && vals[consumed + k].is_none() {
+                    k += 1;
+                }
+                d.cleanup_front();
+                let s: &[K::Item] = &d.items;
+                assert!(s.len() == len - k);
+                let mut j = 0;
+                while j < len - k {
+                    assert!(s[j] == K::item((consumed + k + j) as u8, vals[consumed + k + j]));
+                    j += 1;
+                }
+                kani::cover!(len == NCF && k == NCF);
+                kani::cover!(len == NCF && k == 1 && vals[consumed + 2].is_none());
+            }
+            consumed += 1;
+        }
+        len += 1;
+    }
+}
+#[kani::proof]
+#[kani::unwind(@@UCF@@)]
+fn c16_pairs_cleanup_front_contract() {
+    cleanup_front_contract::<Pairs>()
+}
+#[kani::proof]
+#[kani::unwind(@@UCF@@)]
+fn c16_whole_cleanup_front_contract() {
+    cleanup_front_contract::<Wholes>()
+}
